@@ -26,6 +26,8 @@ mod walk;
 
 #[cfg(fclones_verif)]
 pub mod verif_hooks;
+#[cfg(fclones_verif_shuttle)]
+pub mod verif_shim;
 
 pub use config::{DedupeConfig, GroupConfig, Priority};
 pub use dedupe::{
